@@ -406,7 +406,7 @@ theorem KidsOk.push {P : InlP} {s s' : BState} {lo : Nat} (h : KidsOk P s lo) (h
   · exact hd c hc
   · simp at hc; subst hc; exact hn
 
-theorem getMap_ok {s : BState} {a b : Nat} {r : Nat × Nat} (h : s.getMap a b = .ok r) :
+theorem getMap_ok5 {s : BState} {a b : Nat} {r : Nat × Nat} (h : s.getMap a b = .ok r) :
     a ≤ b ∧ ∃ oa ob, s.offs[a]? = some oa ∧ s.offs[b]? = some ob ∧ r = (oa.firstNonspace, ob.lineEnd) := by
   unfold BState.getMap Lines.getMap at h
   split at h
@@ -459,7 +459,7 @@ theorem hr_geo {P : InlP} {s s' : BState} {b : Bool} (h : hrRule s false = .ok (
   all_goals (try subst_vars)
   all_goals (first | exact KeepsGeo.refl _ _ | skip)
   intro lo hg hs hk
-  obtain ⟨_, oa, ob, ha, hb, rfl⟩ := getMap_ok ‹BState.getMap _ _ _ = _›
+  obtain ⟨_, oa, ob, ha, hb, rfl⟩ := getMap_ok5 ‹BState.getMap _ _ _ = _›
   rw [ha] at hb; cases hb
   obtain ⟨g1, g2, g3, g4⟩ := hg.map_ok (Nat.le_refl _) ha ha
   exact hk.push hg ha ha (Nat.le_refl _) spanB_range (rangedB_leaf _ g2 g3 g4) (hs _ _ (Nat.le_refl _) ha).1
@@ -472,7 +472,7 @@ theorem heading_geo {para : Bool} {P : InlP} (hP : InlSpec para P) {s s' : BStat
   all_goals (try subst_vars)
   all_goals (first | exact KeepsGeo.refl _ _ | skip)
   intro lo hg hs hk
-  obtain ⟨_, oa, ob, ha, hb, rfl⟩ := getMap_ok ‹BState.getMap _ _ _ = _›
+  obtain ⟨_, oa, ob, ha, hb, rfl⟩ := getMap_ok5 ‹BState.getMap _ _ _ = _›
   rw [ha] at hb; cases hb
   have ho := off_ok ‹BState.off _ _ = _›
   rw [ha] at ho; cases ho
@@ -489,7 +489,7 @@ theorem fence_geo {P : InlP} {s s' : BState} {b : Bool} (h : fenceRule s false =
   all_goals (try subst_vars)
   all_goals (first | exact KeepsGeo.refl _ _ | skip)
   intro lo hg hs hk
-  obtain ⟨hab, oa, ob, ha, hb, rfl⟩ := getMap_ok ‹BState.getMap _ _ _ = _›
+  obtain ⟨hab, oa, ob, ha, hb, rfl⟩ := getMap_ok5 ‹BState.getMap _ _ _ = _›
   obtain ⟨hle, he⟩ := psub_ok ‹psub _ _ = _›
   obtain ⟨g1, g2, g3, g4⟩ := hg.map_ok hab ha hb
   refine hk.push hg ha hb hab spanB_range (rangedB_leaf _ g2 g3 g4) (hs _ _ (Nat.le_refl _) ha).1
@@ -508,7 +508,7 @@ theorem paragraph_geo {para : Bool} {P : InlP} (hP : InlSpec para P) {test : Tes
   obtain ⟨h1, h2, _, _⟩ := lazyScan_spec ht false _ _ _ _ hscan
   subst_vars
   intro lo hg hs hk
-  obtain ⟨hab, oa, ob, ha, hb, rfl⟩ := getMap_ok hr
+  obtain ⟨hab, oa, ob, ha, hb, rfl⟩ := getMap_ok5 hr
   obtain ⟨hle, rfl⟩ := psub_ok he
   obtain ⟨g1, g2, g3, g4⟩ := hg.map_ok hab ha hb
   have hp := hP.lines _ _ _ _ _ oa ob hg hgl h2 ha hb
@@ -530,7 +530,7 @@ theorem lheading_geo {para : Bool} {P : InlP} (hP : InlSpec para P) {test : Test
     obtain ⟨h1, h2, _, _⟩ := lazyScan_spec ht true _ _ _ _ hscan
     subst_vars
     intro lo hg hs hk
-    obtain ⟨hab, oa, ob, ha, hb, rfl⟩ := getMap_ok hr
+    obtain ⟨hab, oa, ob, ha, hb, rfl⟩ := getMap_ok5 hr
     obtain ⟨hle, rfl⟩ := psub_ok he
     simp only [Nat.add_sub_cancel] at ha hb hab
     obtain ⟨g1, g2, g3, g4⟩ := hg.map_ok hab ha hb
@@ -600,7 +600,7 @@ theorem getLines_first {src : List Char} {offs : List LineOffset} {b e indent : 
     · simp at h
 
 
-theorem liftL_ok {α : Type} {x : Except Lines.Panic α} {a : α} (h : liftL x = .ok a) : x = .ok a := by
+theorem liftL_ok5 {α : Type} {x : Except Lines.Panic α} {a : α} (h : liftL x = .ok a) : x = .ok a := by
   cases x with
   | error e => cases e <;> simp [liftL] at h
   | ok v => simp [liftL] at h; rw [h]
@@ -621,7 +621,7 @@ theorem code_geo {P : InlP} {s s' : BState} {b : Bool} (h : codeRule s false = .
     obtain ⟨hle, rfl⟩ := psub_ok he
     have hsc := codeScan_spec _ _ _ _ hscan (Nat.le_refl _)
     simp only at ho hgl hle hchk
-    have hgl2 := liftL_ok (show liftL (Lines.getLines s.src s.offs s.line _ (4 + s.blkIndent) false) = _ from hgl)
+    have hgl2 := liftL_ok5 (show liftL (Lines.getLines s.src s.offs s.line _ (4 + s.blkIndent) false) = _ from hgl)
     rcases hx : ‹List Char × List (Nat × Nat)› with ⟨c, m⟩
     rw [hx] at hgl2 hmap
     simp only at hmap
@@ -685,8 +685,8 @@ theorem bqRewrite_cut {src : List Char} {o o' : LineOffset} {rest : List Char} {
   crack h
   subst_vars
   obtain ⟨hle, rfl⟩ := psub_ok ‹psub (o.firstNonspace + 1) _ = _›
-  have hlt := liftL_ok ‹liftL (Lines.slice _ _ _) = _›
-  have hf := liftL_ok ‹liftL (Lines.findIndentOf _ _) = _›
+  have hlt := liftL_ok5 ‹liftL (Lines.slice _ _ _) = _›
+  have hf := liftL_ok5 ‹liftL (Lines.findIndentOf _ _) = _›
   have hopt := ‹bqOptSpace _ _ = _›
   intro ws hws
   simp only at hws ⊢
@@ -713,7 +713,7 @@ theorem bqRewrite_ind {src : List Char} {o o' : LineOffset} {rest : List Char} {
   unfold bqRewrite at h
   crack h
   subst_vars
-  have hf := Lines.find_indent_bounds _ _ _ _ (liftL_ok ‹liftL (Lines.findIndentOf _ _) = _›)
+  have hf := Lines.find_indent_bounds _ _ _ _ (liftL_ok5 ‹liftL (Lines.findIndentOf _ _) = _›)
   have hopt := ‹bqOptSpace _ _ = _›
   unfold IndOk
   simp only
@@ -730,7 +730,7 @@ theorem itemRewrite_ind {src : List Char} {o o' : LineOffset} {pos indent : Nat}
   crack h
   subst_vars
   obtain ⟨hle, rfl⟩ := psub_ok ‹psub (pos + o.firstNonspace) _ = _›
-  have hf := Lines.find_indent_bounds _ _ _ _ (liftL_ok ‹liftL (Lines.findIndentOf _ _) = _›)
+  have hf := Lines.find_indent_bounds _ _ _ _ (liftL_ok5 ‹liftL (Lines.findIndentOf _ _) = _›)
   unfold IndOk at hi ⊢
   simp only
   omega
@@ -750,8 +750,8 @@ theorem itemRewrite_cut {src : List Char} {o o' : LineOffset} {pos indent : Nat}
   subst_vars
   obtain ⟨hle, rfl⟩ := psub_ok ‹psub (pos + o.firstNonspace) _ = _›
   obtain ⟨_, rfl⟩ := psub_ok ‹psub o.lineEnd o.lineStart = _›
-  have hlt := liftL_ok ‹liftL (Lines.slice _ _ _) = _›
-  have hf := liftL_ok ‹liftL (Lines.findIndentOf _ _) = _›
+  have hlt := liftL_ok5 ‹liftL (Lines.slice _ _ _) = _›
+  have hf := liftL_ok5 ‹liftL (Lines.findIndentOf _ _) = _›
   have hfb := Lines.find_indent_bounds _ _ _ _ hf
   have hlen := lineOk_slice_len hl hlt
   have hb := hl.bounds
@@ -781,7 +781,7 @@ theorem bqRewrite_geo {src : List Char} {o o' : LineOffset} {rest : List Char} {
   crack h
   subst_vars
   obtain ⟨hle, rfl⟩ := psub_ok ‹psub (o.firstNonspace + 1) _ = _›
-  have := Lines.find_indent_bounds _ _ _ _ (liftL_ok ‹liftL (Lines.findIndentOf _ _) = _›)
+  have := Lines.find_indent_bounds _ _ _ _ (liftL_ok5 ‹liftL (Lines.findIndentOf _ _) = _›)
   refine ⟨rfl, rfl, ?_⟩
   simp only
   omega
@@ -987,7 +987,7 @@ theorem blockquote_geo {P : InlP} {tok : Tok} {test : Test} (hk : TokSpec tok) (
   obtain ⟨hle, rfl⟩ := psub_ok he
   subst hs'
   intro lo hg hs hkids
-  obtain ⟨hab, oa, ob, ha, hb, rfl⟩ := getMap_ok hr
+  obtain ⟨hab, oa, ob, ha, hb, rfl⟩ := getMap_ok5 hr
   simp only at ha hb hab hle
   rw [ho0] at ha; cases ha
   obtain ⟨g1, g2, g3, g4⟩ := hg.map_ok hab ho0 hb
@@ -1030,7 +1030,7 @@ theorem itemRewrite_geo {src : List Char} {o o' : LineOffset} {pos indent : Nat}
   crack h
   subst_vars
   obtain ⟨hle, rfl⟩ := psub_ok ‹psub (pos + o.firstNonspace) _ = _›
-  have := Lines.find_indent_bounds _ _ _ _ (liftL_ok ‹liftL (Lines.findIndentOf _ _) = _›)
+  have := Lines.find_indent_bounds _ _ _ _ (liftL_ok5 ‹liftL (Lines.findIndentOf _ _) = _›)
   refine ⟨rfl, rfl, ?_⟩
   simp only
   omega
@@ -1105,7 +1105,7 @@ theorem listItem_geo {P : InlP} {tok : Tok} (hk : TokSpec tok) (hsh : TokGeo P t
     listItemBody_geo hsh hbody hg2 (by rw [hS2eq]; exact hline) (by rw [hS2eq]) hx2 hgeo.2.2
       (by rw [hS2eq]; exact hcut)
   obtain ⟨hle, rfl⟩ := psub_ok he
-  obtain ⟨hab, oa, ob, ha, hb, rfl⟩ := getMap_ok hr
+  obtain ⟨hab, oa, ob, ha, hb, rfl⟩ := getMap_ok5 hr
   have hrestore : (S3.offs.set m o) = S.offs := by
     rw [hfr.offs, hS2eq]
     simp only [List.set_set]
@@ -1242,7 +1242,7 @@ theorem list_rule_geo {P : InlP} {tok : Tok} {test : Test} (hk : TokSpec tok) (h
     obtain ⟨n, t, S'⟩ := wl
     obtain ⟨hfr, hline', hmn, _⟩ := listLoop_spec hk ht _ _ _ _ _ _ _ _ _ hloop rfl hl
     intro lo hg hs hkids
-    obtain ⟨hab, oa, ob, ha, hb, rfl⟩ := getMap_ok hr
+    obtain ⟨hab, oa, ob, ha, hb, rfl⟩ := getMap_ok5 hr
     simp only at ha hb hab hfr hline' hmn htight
     have hoffs : S'.offs = s.offs := hfr.offs
     have hsrc : S'.src = s.src := hfr.src
@@ -1893,24 +1893,24 @@ def flatRTList (d : Nat) : List RT → List (Nat × Nat × Nat)
 end
 
 /-- a quote holding a two-line list item, then an indented code block -/
-def exDoc : List Char := "> - a\n>   b\n\n    code".toList
+def exDoc5 : List Char := "> - a\n>   b\n\n    code".toList
 
-example : (parseDoc (exCfg false 100) exDoc).toOption.map (·.range) = some (some (0, 21)) := by
+example : (parseDoc (exCfg false 100) exDoc5).toOption.map (·.range) = some (some (0, 21)) := by
   decide +kernel
 
 /-- root, quote, list, item (its tight paragraph is dissolved), code block -/
-example : (parseDoc (exCfg false 100) exDoc).toOption.map (fun t => flatRT 0 (bskel t)) =
+example : (parseDoc (exCfg false 100) exDoc5).toOption.map (fun t => flatRT 0 (bskel t)) =
     some [(0, 0, 21), (1, 0, 11), (2, 2, 11), (3, 2, 11), (1, 17, 21)] := by decide +kernel
 
-theorem exDoc_parses : ∃ t, parseDoc (exCfg false 100) exDoc = .ok t := by
-  have h : (parseDoc (exCfg false 100) exDoc).toOption.isSome = true := by decide +kernel
-  cases hp : parseDoc (exCfg false 100) exDoc with
+theorem exDoc5_parses : ∃ t, parseDoc (exCfg false 100) exDoc5 = .ok t := by
+  have h : (parseDoc (exCfg false 100) exDoc5).toOption.isSome = true := by decide +kernel
+  cases hp : parseDoc (exCfg false 100) exDoc5 with
   | ok t => exact ⟨t, rfl⟩
   | error e => rw [hp] at h; cases h
 
 /-- the hypotheses of `doc_root_range` / `doc_block_ranges` are satisfiable -/
-example : ∃ t, parseDoc (exCfg false 100) exDoc = .ok t ∧ t.range = some (0, 21) ∧ RangedRT exDoc (bskel t) := by
-  obtain ⟨t, ht⟩ := exDoc_parses
+example : ∃ t, parseDoc (exCfg false 100) exDoc5 = .ok t ∧ t.range = some (0, 21) ∧ RangedRT exDoc5 (bskel t) := by
+  obtain ⟨t, ht⟩ := exDoc5_parses
   exact ⟨t, ht, doc_root_range _ _ t ht, doc_block_ranges _ _ t (by decide +kernel) ht⟩
 
 /-- the delicate starts: an indented code block on the first line of a list item keeps the one
